@@ -21,7 +21,7 @@ CLAIMED = {
  "C20": ("trace validation of paired recordings from two separate builds (std+serde, alloc-only) against Trace_Config (projections must agree with each other and with the contract) and of serde round-trip steps against Trace_Tracker/Trace_Config (TLC)", "7/C20"),
  "C11": ("trace validation of recorded text against Render.tla (per-type templates instantiated with the contract's decoded values, branch conditions explicit; float tokens compared numerically; printed heading checked with fixed-point trig) by TLC", "7/C11"),
  "C16": ("TLC model checking of MC_Feed (line loop over a segmented byte stream with short/long gaps; invariants NoCrash, ExactlyOnceInOrder, AllProcessed) + schedules of the bounded model, malformed-line feeds and disconnect/reconnect runs executed against the real 1090 and radar (pty + guarded hook), judged by Trace_Feed; TLC model checking of MC_RadarSession (client lifecycle: safety and liveness under weak fairness) and trace validation of every radar run's hook events against it (Trace_Session)", "7/C16"),
- "C17": ("TLC model checking of MC_RadarUI (handler tables, selection clamp at draw, bursts between draws, arrivals/expiry; invariants NoPanic, SelectionShown, property ViewOnly) + behaviours of the bounded model and random operator sessions driven through the real radar in a pty, hook events and session outcome judged by Trace_UI; TLC model checking of MC_RadarSession (lifecycle: TerminalRestored, LeftForAReason, liveness QuitLeadsToExit under weak fairness) with every session's event order validated against it (Trace_Session); CLI grid", "7/C17"),
+ "C17": ("TLC model checking of MC_RadarUI (handler tables, selection clamp at draw, bursts between draws, arrivals/expiry; invariants NoPanic, SelectionShown, property ViewOnly) + behaviours of the bounded model (chosen to cover its transition classes; exhaustive short behaviours and simulation-mode walks) and random operator sessions driven through the real radar in a pty, hook events and session outcome judged by Trace_UI; TLC model checking of MC_RadarSession (lifecycle: TerminalRestored, LeftForAReason, liveness QuitLeadsToExit under weak fairness) with every session's event order validated against it (Trace_Session); CLI grid", "7/C17"),
  "C18": ("trace validation of reconstructed screens (terminal model at hook frame markers) paired with the hook's per-aircraft data against Trace_Screen (titles, Airplanes rows, Stats totals tracked through the trace, Map label and named-place placement by the linear longitude scale, data unchanged by view actions) by TLC; MC_RadarUI property ViewOnly", "7/C18"),
 }
 NOT_YET = {}
@@ -34,7 +34,7 @@ TEXT = {
  "C04": "Header and address fields of every recorded frame are compared with Bits!Field extraction at the Annex 10 offsets: every value of every header field x every payload type, walking-one over every frame shape; all 2^24 addresses are rendered and parsed back by the recorder (oracle-free equation, count and samples judged by TLC). Level I: DekuBits (TLC) - deku's bit machine and the read program of each of 647 frame shapes deliver every field from the bits the grammar assigns (repaired defects D1/D2/D4 as deviations must fail); the predicted read/seek calls are compared with the real decoder's for every shape (drift only).",
  "C05": "CPR!GlobalDecode in exact integer arithmetic (TLA+) judges 29 K (quick) / 1.1 M (thorough) recorded pairings within 3 micro-degrees: encoded true positions, displacements, poles, equator, antimeridian, NL transitions, raw/boundary/rounding-tie quadruples, both orders; the longitude-zone count is walked over all 3.9 M + 3.9 M reachable latitudes with the change points judged by TLC. Step D: MC_CPR round trip on 34 992 states; NL thresholds recomputed from the closed form.",
  "C06": "Exhaustive: all 8192 13-bit codes in DF0/4/16/20 and all 4096 12-bit codes in each of the 13 type codes are decoded by the real code and compared by TLC with ModeAC!AC13/AC12 written from the Gray-code definition. Step D: MC_ModeAC (8192 states) shows the Gillham map is a bijection onto -1200..126700 ft with the Gray property.",
- "C07": "All raw velocity fields (every code) and the derived velocity are judged by TLC: components and vertical rate exactly, ground speed by an integer-square-root bracket, track by the fixed-point sine/cosine relation (no inverse functions). Quick: lattice of components; thorough: all 2^22 combinations of direction bits and components.",
+ "C07": "All raw velocity fields (every code) and the derived velocity are judged by TLC: components and vertical rate exactly, ground speed by an integer-square-root bracket, track by the fixed-point sine/cosine relation (no inverse functions) and by its sign as a consumer sees it (no negative zero). Quick: lattice of components; thorough: all 2^22 combinations of direction bits and components.",
  "C08": "Every 6-bit code at every one of the 8 positions, all pairs of positions, padded and random strings in both carriers (type 1-4, BDS 2,0), all type/category values; TLC compares with the Annex 10 character set (Frame!Chars8, CallsignOK).",
  "C09": "Exhaustive: all 8192 identity codes in DF5, DF21 and type 28 compared by TLC with ModeAC!Identity; all subtype/emergency pairs. Step D: MC_ModeAC shows the de-interleaving is a bijection onto four octal digits and ignores X.",
  "C10": "Every interpreted payload field (surface/airborne position, target state, operational status airborne/surface, BDS 1,0) is swept (all values up to 12 bits, boundary/walking/random beyond) under DF17, DF18 x 8 control-field types and DF20/21 and compared by TLC with the DO-260B / ICAO 9871 offsets and scalings in Frame.tla; dispatch grid over type code x subtype and all first MB bytes. Level I: DekuBits (TLC) - deku's bit machine and the read program of each of 647 frame shapes deliver every field from the bits the grammar assigns (repaired defects D1/D2/D4 as deviations must fail); the predicted read/seek calls are compared with the real decoder's for every shape (drift only).",
@@ -43,8 +43,8 @@ TEXT = {
  "C13": "Same models and recordings as C12; Trace_Tracker instantiates Tracker!PosUpd with CPR!GlobalDecode and Geo (fixed-point haversine in verification direction, 5 m tolerance, 25 m guard band at the range and 100 km thresholds); threshold flights along meridians/equator hit both sides of each limit within tens of metres.",
  "C14": "Same models and recordings as C12; latest-wins attributes, per-component 'changed' verdicts, the track step (TrackStepOK) and the derived views (details, all_position, Display, distance iff position) are judged after every step.",
  "C15": "MC_Tracker PruneRemovesExactly / ReaddedIsFresh; recorded histories with integer clock ticks (guarded hook verif_backdate moves every timestamp) and prune(T), T in 0..120, judged by Trace_Tracker against the spec's own clock; histories that took >= 0.9 s of wall time are repeated, never judged.",
- "C16": "MC_Feed (TLC) checks NoCrash / ExactlyOnceInOrder / AllProcessed and, under weak fairness, EventuallyAllProcessed over every segmentation (<= 4 segments) and gap assignment of small feeds; TLAPS proves NoCrash for all streams and schedules (thorough). Schedules of the model, malformed-line and split-invalid feeds, --limit-parsing, disconnect and reconnect runs are executed against the real 1090 and radar over loopback TCP and judged by Trace_Feed. MC_RadarSession (TLC, with fairness) checks that a closed feed leads to exit, or with --retry-tcp to a reconnect that keeps the tracked aircraft; each radar run's hook events must be a behaviour of that machine (Trace_Session: connected before any line, disconnect_keys, retry_lost_aircraft).",
- "C17": "MC_RadarUI (TLC) checks NoPanic / SelectionShown over keys, mouse events, arrivals/expiry and bursts between draws; behaviours of the model and seeded random operator sessions (terminal sizes down to 1x1, SGR mouse, resizes, raw junk), quitting while waiting for a (re)connection, and a grid of malformed option values are run against the real radar in a pty; exit status, termios, DEC modes and panics judged by Trace_UI; every logged step is explained by the handler tables (drift = 0). MC_RadarSession (TLC) checks the lifecycle - terminal as found whenever the process has ended, the loop only left for a reason, a quit request leads to exit (liveness under weak fairness) - and Trace_Session accepts a session only if its hook events, in order, are a behaviour of that machine (sessions with server closes, reconnects, quitting in every state).",
+ "C16": "MC_Feed (TLC) checks NoCrash / ExactlyOnceInOrder / AllProcessed and, under weak fairness, EventuallyAllProcessed over every segmentation (<= 4 segments) and gap assignment of small feeds; TLAPS proves NoCrash for all streams and schedules (thorough). Schedules of the model, malformed-line, split-invalid, bulk and over-long pausing feeds (nothing but complete well-formed lines may be processed as a frame), --limit-parsing, disconnect and reconnect runs are executed against the real 1090 and radar over loopback TCP and judged by Trace_Feed. MC_RadarSession (TLC, with fairness) checks that a closed feed leads to exit, or with --retry-tcp to a reconnect that keeps the tracked aircraft; each radar run's hook events must be a behaviour of that machine (Trace_Session: connected before any line, disconnect_keys, retry_lost_aircraft).",
+ "C17": "MC_RadarUI (TLC) checks NoPanic / SelectionShown over keys, mouse events, arrivals/expiry and bursts between draws; behaviours of the model - one per transition class (event x tab x selection x rows), rarest first, from the exhaustive short behaviours and from long random walks of the same machine - and seeded random operator sessions (terminal sizes down to 1x1, SGR mouse, resizes, raw junk), quitting while waiting for a (re)connection, and a grid of malformed option values are run against the real radar in a pty; exit status, termios, DEC modes and panics judged by Trace_UI; every logged step is explained by the handler tables (drift = 0). MC_RadarSession (TLC) checks the lifecycle - terminal as found whenever the process has ended, the loop only left for a reason, a quit request leads to exit (liveness under weak fairness) - and Trace_Session accepts a session only if its hook events, in order, are a behaviour of that machine (sessions with server closes, reconnects, quitting in every state).",
  "C18": "Screens reconstructed by a terminal model at the hook's frame markers are paired with the hook's per-aircraft data and judged by Trace_Screen: title counts, every Airplanes row (address, callsign, lat, lon, altitude, distance, messages), Stats totals tracked through the trace, Map label column by the linear longitude scale (+-1) and row by linearised Mercator (+-2), named places (--locations, --airports) likewise on Map and Coverage, distances measured from the receiver whatever the view, data unchanged by view actions; MC_RadarUI ViewOnly / StatsOK.",
  "C19": "MC_Reader (TLC) explores every schedule with <= 1/2 short reads and <= 1/2 Interrupted errors of the read/seek programs of 40 frame shapes (taken from reference runs of the real decoder) and checks the checksum-window invariants and termination (liveness under weak fairness); every model schedule, random schedules, frames behind a prefix and back-to-back frames are replayed through a scripted Read+Seek and judged by Trace_Reader (result equals the slice decode; decoding is pure).",
  "C20": "The recorder is built twice (std+serde, alloc-only); both run the same decode / pairing / tracker inputs and Trace_Config requires the projections (and texts) to be identical; every decoded frame and tracker states inside histories are sent through serde_json and back and re-projected.",
